@@ -9,13 +9,15 @@ package args
 // structs are enabled under a template other than slim / raw_struct, must hand back an option list whose template
 // option is one of the two. The assertion sits at the return because "nested structs are enabled" is the scratch
 // CodeUtils' own verdict. When nested structs are off, or the template is already slim / raw_struct, the list comes
-// back unchanged.
+// back unchanged. An option list that the backend's own HandleOptions rejects is rejected here too (an unknown template
+// must not be rewritten into a known one).
 //@ func (a *Arguments) checkOptions(opts []plugin.Option) ([]plugin.Option, error)
 //@   requires golang.wfTable()
 //@   modifies *
-//@   ensures result1 == nil
-//@   site return assert cu.features.EnableNestedStruct ==> cu.useTemplate == "slim" || cu.useTemplate == "raw_struct" || ((exists k int :: 0 <= k && k < len(opts) && opts[k].Name == "template") && forall k int :: 0 <= k && k < len(opts) && opts[k].Name == "template" ==> opts[k].Desc == "slim")
-//@   site return assert !cu.features.EnableNestedStruct || cu.useTemplate == "slim" || cu.useTemplate == "raw_struct" ==> len(opts) == len(old(opts)) && forall k int :: 0 <= k && k < len(opts) ==> opts[k] == old(opts)[k]
+//@   ensures ncalls("cu.HandleOptions") >= 1 && callret("cu.HandleOptions", 0) != nil ==> result1 != nil
+//@   ensures ncalls("cu.HandleOptions") >= 1 && callret("cu.HandleOptions", 0) == nil ==> result1 == nil
+//@   site return assert callret("cu.HandleOptions", 0) == nil && cu.features.EnableNestedStruct ==> cu.useTemplate == "slim" || cu.useTemplate == "raw_struct" || ((exists k int :: 0 <= k && k < len(opts) && opts[k].Name == "template") && forall k int :: 0 <= k && k < len(opts) && opts[k].Name == "template" ==> opts[k].Desc == "slim")
+//@   site return assert callret("cu.HandleOptions", 0) == nil && (!cu.features.EnableNestedStruct || cu.useTemplate == "slim" || cu.useTemplate == "raw_struct") ==> len(opts) == len(old(opts)) && forall k int :: 0 <= k && k < len(opts) ==> opts[k] == old(opts)[k]
 //@   loop 1 invariant cu != nil && len(opts) == len($xs) && (found <==> exists k int :: 0 <= k && k < $i && opts[k].Name == "template")
 //@   loop 1 invariant forall k int :: 0 <= k && k < $i && opts[k].Name == "template" ==> opts[k].Desc == "slim"
 
